@@ -127,7 +127,7 @@ CHECKS = {
     'C19': dict(
         gens=['Sync'],
         props='ZanVerif.Props.C19',
-        protos=[dict(name='sync', quick_seeds=1, thorough_seeds=2)],
+        protos=[dict(name='sync', quick_seeds=1, thorough_seeds=2), dict(name='syncsend', quick_seeds=1, thorough_seeds=2)],
         rule="delivery sequences from 1-2 source clusters: in-order batches, stale re-sends of random old entries, sender restarts from earlier positions (overlapping batches), arbitrary (term, index) garbage, entries the state machine ignores (failed remote-snapshot apply), "
              "snapshots, restores with replay of the local log tail, the admin position override; each entry goes through the REAL KVNode.applyEntry around a recording state machine; non-trivial = answered without error; distinct = distinct op lines",
         trusted=["the recording state machine of the harness stands for the data (the effect of an entry is 'its source index was applied')",
